@@ -147,10 +147,16 @@ class Schedules(Space):
             opts_call = opts if kind == 'alias' else copy.deepcopy(opts)
         sgn = {'entry': c['entry'], 'executor': c['executor'], 'options': kind}
         extra = {}
+        # the same values in C (row-major) or Fortran (column-major) memory layout, e.g. a transposed (samples x channels) recording
+        fortran = (n + (nj if nj > 0 else 7) + len(order) + (kind == 'list') + (c['progress'] is not None)) % 2 == 1
+        sgn['layout'] = 'F' if fortran else 'C'
+
+        def arr():
+            return np.asfortranarray(sigs) if fortran else sigs.copy()
         try:
             if c['executor'] == 'virtual':
                 with sched.patched_pool(order):
-                    got, obj = call(c['entry'], sigs.copy(), opts_call, flag, nj, c['progress'])
+                    got, obj = call(c['entry'], arr(), opts_call, flag, nj, c['progress'])
                     if sched.VirtualPool.constructed == 0:
                         extra['seam_not_exercised'] = 1
                     elif sched.VirtualPool.log and sched.VirtualPool.log[-1][2] != tuple(order):
@@ -159,7 +165,7 @@ class Schedules(Space):
             else:
                 keys = [np.ascontiguousarray(s).tobytes() for s in sigs]
                 with sched.RealGate(keys, order) as g:
-                    got, obj = call(c['entry'], sigs.copy(), opts_call, flag, nj, c['progress'])
+                    got, obj = call(c['entry'], arr(), opts_call, flag, nj, c['progress'])
                     seen, timeouts = g.observed()
                 if timeouts or seen != tuple(order):
                     extra['order_not_enforced'] = 1
